@@ -134,6 +134,14 @@ pub fn base(
             }
         } else {
             rep.pest_undefined += 1;
+            // pest can only be undefined where the stack is involved (empty-stack PEEK/POP, a missing
+            // restore, POP_ALL failing half-way): anywhere else a disagreement means M itself is wrong
+            if mres.stack_ops == 0 && mres.empty_stack_ops == 0 && mres.oob_slices == 0 && init.is_empty() {
+                rep.model_error(format!(
+                    "reference machine M disagrees with the pest model without any stack operation involved: grammar={} rule={} input={:?}: M=({},{}) M_pest={:?}",
+                    e.id, e.rules[ri].name, input, m_ok, m_end, pm
+                ));
+            }
         }
     } else if at_call != Atom::NonAtomic {
         // atomic caller: real pest through `__a_r = @{ r }` gives verdict and end offset only
